@@ -101,3 +101,8 @@ Proof. exact pos_cert_nonvacuous. Qed.
 Theorem C05_empty_answer_iff_accepted : forall G c, pos_cert_failed G c = [] <-> pos_cert_ok G c = true.
 Proof. exact pos_failed_nil. Qed.
 Print Assumptions C05_empty_answer_iff_accepted.
+
+Theorem C05_group_hypotheses_satisfiable : GroupCheck.IsGroup ex_G /\
+  (forall p h, In h (stab ex_G (moved ex_pcert p)) -> In h (stab ex_G (pc_x ex_pcert))) /\
+  core_map ex_G [Q3 (1 # 7) (1 # 5) (1 # 3); ex_x; Q3 (1 # 7) (9 # 5) (1 # 3)] = [(0, [0; 2]); (1, [1])]%nat.
+Proof. exact (conj ex_G_is_group (conj no_new_symmetry_satisfiable core_map_example)). Qed.
